@@ -111,3 +111,67 @@ Proof.
   exists A1, e1, B1, e2, B2, e3, A2, e4, s1, s2.
   repeat (split; [assumption|]). assumption.
 Qed.
+
+(* ---- the same for v3.1.1 ---- *)
+Lemma connect311_clears_ids g c p : c_status c = Disconnected -> k_flag p = true ->
+  match recv_connect g c V311 (PROk p) with Ok (c1, _) => forall y, is_used c1 y = false | Panic _ => True end.
+Proof.
+  intros Hs Hfl. unfold recv_connect. rewrite Hs. cbn [status_eqb negb]. cbv zeta.
+  unfold connect_recv_state. rewrite Hfl. cbn [version_eqb bindr]. cbv zeta.
+  unfold refresh_pingreq_recv, initialize, clear_store_related.
+  destruct (0 <? k_keep_alive p); conn_simpl_goal; cbn [bindr]; conn_simpl_goal; destruct (negb (_ =? 0)); intro y; unfold is_used; conn_simpl_goal; apply clear_unused.
+Qed.
+
+Lemma connack311_sent_keeps_ids c p : HV3 c Connecting -> k_ver p = V311 -> k_rc p = 0 ->
+  match send_connack c p with Ok (c1, _) => forall y, is_used c1 y = is_used c y | Panic _ => True end.
+Proof.
+  intros (Hv & Hs & Hq & Hst & Hsm) Hpv Hrc.
+  unfold send_connack. rewrite Hpv, Hs. cbn [version_eqb negb andb status_eqb]. rewrite Hrc. change (0 =? 0) with true. cbn [negb]. cbv zeta.
+  unfold connack_send_props. rewrite Hpv. cbn [version_eqb andb].
+  unfold send_stored. conn_simpl_goal. rewrite Hst. cbn [send_stored_l map fold_left send_stored_events].
+  unfold release_all. cbn [bindr fold_left]. conn_simpl_goal. rewrite Hsm. cbn [bindr].
+  unfold send_post_process. conn_simpl_goal. destruct (c_is_client c); try destruct (0 <? _); intro y; unfold is_used; conn_simpl_goal; reflexivity.
+Qed.
+
+Theorem fresh_v311_complete_quiescence gA gB cn ca l :
+  1 <= g_idmax gA -> 1 <= g_idmax gB -> role_client_ok gA = true -> role_server_ok gB = true ->
+  k_type cn = T_CONNECT -> k_ver cn = V311 -> k_flag cn = true ->
+  k_type ca = T_CONNACK -> k_ver ca = V311 -> k_rc ca = 0 -> k_flag ca = false ->
+  Forall good_act2 l ->
+  let A0 := set_auto_pub (conn_new gA V311) true in
+  let B0 := set_auto_pub (conn_new gB V311) true in
+  exists A1 e1 B1 e2 B2 e3 A2 e4 s1 s2,
+    step gA A0 (OSend cn) = Ok (A1, e1, []) /\ deliver gB B0 cn = Ok (B1, e2) /\
+    step gB B1 (OSend ca) = Ok (B2, e3, []) /\ deliver gA A1 ca = Ok (A2, e4) /\
+    errors e1 = [] /\ errors e2 = [] /\ errors e3 = [] /\ errors e4 = [] /\
+    run_sched2 gA gB (mkBi A2 B2 [] [] [] [] [] []) l = Some s1 /\
+    run_sched2 gA gB s1 (drain2 (measure2 s1)) = Some s2 /\
+    qab s2 = [] /\ qba s2 = [] /\ delB s2 = pubA s1 /\ delA s2 = pubB s1 /\
+    (forall y, is_used (ea s2) y = false) /\ (forall y, is_used (eb s2) y = false).
+Proof.
+  intros IA IB RA RB T1 V1 F1 T2 V2 C2 F2 Hl A0 B0.
+  assert (OA : OWN gA A0) by (apply (f8_own gA (conn_new gA V311)); [unfold F8; repeat split|exact (conn_new_OWN gA V311 IA)]).
+  assert (OB : OWN gB B0) by (apply (f8_own gB (conn_new gB V311)); [unfold F8; repeat split|exact (conn_new_OWN gB V311 IB)]).
+  destruct (handshake311_establishes_pair_invariant gA gB A0 B0 cn ca OA OB eq_refl eq_refl eq_refl eq_refl eq_refl eq_refl RA RB
+              T1 V1 F1 T2 V2 C2 F2)
+    as (A1 & e1 & B1 & e2 & B2 & e3 & A2 & e4 & E1 & S1 & X1 & E2 & N2 & X2 & _ & E3 & S3 & X3 & E4 & N4 & X4 & _ & Hinv).
+  assert (HU : U2 (mkBi A2 B2 [] [] [] [] [] [])).
+  { split; apply U_init.
+    - destruct (client_sends_connect311 A0 cn eq_refl eq_refl V1 F1) as (a1 & f1 & Ea & _ & _ & Ha & _).
+      rewrite (step_send_connect gA A0 cn ltac:(symmetry; exact V1) T1 RA), Ea in E1. cbn [bindr] in E1. injection E1 as <- <-.
+      pose proof (connack_clears_ids a1 ca Ha C2 F2) as Hc. unfold deliver, dispatch_recv in E4. rewrite T2 in E4.
+      destruct Ha as (Hv & _). rewrite Hv in E4. change (T_CONNACK =? 1) with false in E4. change (T_CONNACK =? 2) with true in E4. cbv iota in E4.
+      rewrite E4 in Hc. exact Hc.
+    - destruct (server_receives_connect311 gB B0 cn eq_refl eq_refl F1) as (b1 & f2 & Eb & _ & _ & _ & Hb & _).
+      pose proof (connect311_clears_ids gB B0 cn eq_refl F1) as Hc1.
+      unfold deliver, dispatch_recv in E2. rewrite T1 in E2. change (c_version B0) with V311 in E2. change (T_CONNECT =? 1) with true in E2. cbv iota in E2.
+      rewrite E2 in Eb, Hc1. injection Eb as <- <-.
+      pose proof (connack311_sent_keeps_ids B1 ca Hb V2 C2) as Hc2.
+      destruct Hb as (Hv & _).
+      rewrite (step_send_connack gB B1 ca ltac:(congruence) T2 RB) in E3.
+      destruct (send_connack B1 ca) as [[b2 f3]|]; [|discriminate E3]. cbn [bindr] in E3. injection E3 as <- <-.
+      intro y. rewrite Hc2. apply Hc1. }
+  destruct (two_way_all_identifiers_released gA gB l _ Hinv HU Hl) as (s1 & s2 & R1 & R2' & Q1 & Q2' & D1 & D2 & I1 & I2).
+  exists A1, e1, B1, e2, B2, e3, A2, e4, s1, s2.
+  repeat (split; [assumption|]). assumption.
+Qed.
